@@ -90,6 +90,46 @@ D = {
  "C19-m4": ("C19", "pilota/src/prost/encoding.rs message::merge_repeated", "element built in spare capacity, set_len only after a successful merge", "repeated message field, a corruption inside an element after a heap-owning field of that element was merged (never a truncation)"),
  "C20-m3": ("C20", "pilota-build/src/middle/context.rs lit_into_ty", "string default literals formatted with {:?}", "a string / binary default containing a backslash escape"),
  "C20-m4": ("C20", "pilota-thrift-parser/src/parser/constant.rs IntConstant", "the sign of a negative hex literal is dropped", "a default or constant written as a negative hexadecimal integer"),
+ "C01-m5": ("C01", "pilota/src/thrift/compact.rs sync reader (2 sites)", "field-id stack elides frames whose saved id is 0 (push only if non-zero, pop().unwrap_or(0))", "sync compact, depth >= 2, inside a struct under a non-zero id a field with id exactly 0 holding a struct, then a short-form sibling"),
+ "C01-m6": ("C01", "pilota/src/thrift/binary_le.rs LinkedBytes write_faststr", "zero-copy branch writes the length prefix big-endian", "binary-LE on LinkedBytes with zero_copy, a string >= 4096 bytes through write_faststr"),
+ "C02-m5": ("C02", "pilota-build/src/codegen/thrift/ty.rs codegen_decode_ty", "sync decode of list<i8> takes the whole run with get_bytes(None, n)", "list<byte> somewhere in the IDL, unchecked protocol, sync decode (get_bytes(None, ..) subtracts the pending index)"),
+ "C02-m6": ("C02", "pilota-build/src/middle/context.rs default_val", "rendered defaults memoised by (literal, field type) although const paths are relative to the current item", "two files with different namespaces using a constant of the included file as a default for fields of the same type"),
+ "C04-m5": ("C04", "pilota/src/thrift/compact.rs", "short-form field header widened to delta 15 in the length pass and the BytesMut writer, not in the LinkedBytes writer", "compact on LinkedBytes, a field-id delta of exactly 15"),
+ "C04-m6": ("C04", "pilota-build/src/codegen/thrift/ty.rs codegen_field_size", "typedef-of-bool guard looks at the typedef's immediate target only", "a typedef that reaches bool through another typedef, used as a field, compact"),
+ "C05-m5": ("C05", "pilota/src/prost/encoding.rs decode_varint_slow", "shift computed from the index inside the current chunk", "a multi-byte varint straddling a chunk boundary of a segmented Buf (Buf::chain); contiguous buffers unaffected"),
+ "C05-m6": ("C05", "pilota/src/prost/encoding.rs sint32/sint64 from_uint64", "'textbook' zig-zag decode overflows at n = MAX", "exactly i64::MIN in an sint64 field or i32::MIN in an sint32 field"),
+ "C06-m5": ("C06", "pilota/src/prost/encoding.rs map! merge_with_default", "map entry read straight-line: tag 1 then tag 2, anything after is skipped", "a map entry written value-before-key with a non-default key"),
+ "C06-m6": ("C06", "pilota-build/src/parser/protobuf/mod.rs lower_ty", "scalar types interned by kind without the wire-flavour tag", "one builder run lowering two flavours of one integer kind (sint32 then int32, fixed64 then uint64), self-consistent in pilota"),
+ "C08-m5": ("C08", "pilota/src/thrift/binary_unsafe.rs skip struct arm", "a nested struct bumps its enclosing frame's counter instead of pushing its own", "unchecked reader skipping a map with exactly one struct side whose struct carries a struct-typed field"),
+ "C08-m6": ("C08", "pilota/src/thrift/compact.rs skip_varint", "integers skipped by scanning at most 9 bytes", "sync compact, a skipped i64 with a ten-byte varint (|v| >= 2^62)"),
+ "C09-m5": ("C09", "pilota/src/thrift/compact.rs sync reader", "field-id stack is a fixed [i16; 64]", "sync compact: an unknown struct field nested exactly 64 levels inside a struct, a recursive type nested > 64, or a reader reused after many mid-struct failures"),
+ "C09-m6": ("C09", "pilota/src/thrift/mod.rs skip_till_depth (sync + async)", "void treated as a zero-width skippable type", "async binary skip of a container whose element type code is 1 with a huge count: 2^31 iterations inside one poll"),
+ "C11-m5": ("C11", "pilota/src/thrift/binary_unsafe.rs get_bytes(None, ..)", "advance(index) before subtracting index", "the 'keep the rest' call of keep_unknown_fields argument structs after a fixed-width or nested-struct last field"),
+ "C11-m6": ("C11", "pilota/src/thrift/binary_unsafe.rs write_map_begin (both writers)", "header packed into one 8-byte store (2 bytes beyond the 6-byte header)", "an empty map within the last 7 bytes of an exact-size output area; the stray bytes are zeros"),
+ "C13-m5": ("C13", "pilota/src/thrift/binary_unsafe.rs SkipData::new", "pop-on-select decided from the first element type only", "unchecked reader, unknown field containing a non-empty map with exactly one struct side"),
+ "C13-m6": ("C13", "pilota-build/src/codegen/thrift/mod.rs", "fields with constant defaults not counted in __pilota_fields_num", "keep_unknown_fields argument struct with a defaulted field present on the wire and another known field after it"),
+ "C18-m5": ("C18", "pilota/src/prost/encoding.rs bytes::merge", "early return on an empty payload (old contents not cleared)", "a singular bytes field occurring twice, non-empty first and explicitly empty last"),
+ "C18-m6": ("C18", "pilota/src/prost/encoding.rs map! merge_with_default", "an entry without a value record does or_insert instead of insert", "equal map keys in two records, the later value being the type default"),
+ "C03-m5": ("C03", "pilota/src/thrift/compact.rs sync skip bool arm", "read_bool only when no value is pending: the stored value of a skipped bool field stays", "sync compact: a skipped bool field, then a bool container before any other bool field (sync and async disagree)"),
+ "C03-m6": ("C03", "pilota/src/thrift/compact.rs LinkedBytes write_field_header", "early return for non-positive deltas skips last_write_field_id = id", "compact on LinkedBytes: ids that descend and then return to 1..14 above the stale id (5, 1, 6 arrive as 5, 1, 2)"),
+ "C07-m5": ("C07", "pilota/src/thrift/binary_unsafe.rs skip struct arm", "nested struct bumps the enclosing frame when its first type is Struct", "unchecked skip of map<struct-key, non-struct> whose key struct has a struct-typed field"),
+ "C07-m6": ("C07", "pilota/src/thrift/compact.rs read_collection_begin / read_map_begin", "count bounded by remaining / minimum element width, a map counted as 2 bytes", "sync compact, a list/set of mostly empty maps near the end of the input"),
+ "C10-m5": ("C10", "pilota/src/prost/encoding.rs faststr::merge", "strings <= 24 bytes taken from chunk()[..len] after checking remaining()", "a short string straddling a chunk boundary of a segmented Buf: slice panic"),
+ "C10-m6": ("C10", "pilota/src/prost/encoding.rs merge_repeated_numeric!", "packed branch reserves remaining()/size elements (the rest of the whole input)", "hundreds of sibling sub-messages with tiny packed fields: live heap quadratic in the input"),
+ "C12-m5": ("C12", "pilota/src/thrift/varint_ext.rs + compact.rs async", "poll-style varint reader rebuilds its accumulator on every poll", "async compact, a Pending strictly inside a multi-byte varint"),
+ "C12-m6": ("C12", "pilota/src/thrift/rw_ext.rs discard_exact", "skipping binaries > 1500 bytes reads whole scratch buffers, not only what is owed", "async skip of an unknown string longer than 1500 bytes when bytes beyond it arrive in the same read"),
+ "C14-m5": ("C14", "pilota-build/src/plugin/mod.rs AutoDerive", "delayed fix-up consults the type graph (no container edges) instead of the workspace graph", "a type cycle with a hop through a container and a member referring to a non-derivable type: derive(Hash, Eq, Ord) on something that cannot"),
+ "C14-m6": ("C14", "pilota-build/src/parser/thrift/mod.rs ThriftLower::lower", "service-name collision set filled before the includes are lowered (and cleared by them)", "two services equal after case conversion sharing a method name, in a file with an include"),
+ "C15-m5": ("C15", "pilota-thrift-parser/src/parser/ty.rs", "thread-local container depth counter, not restored on the error path; limit 24", "24 type names that merely begin with list/set/map (or nesting > 24), then any container type"),
+ "C15-m6": ("C15", "pilota-thrift-parser/src/parser/constant.rs DoubleConstant", "exponent only accepted after fraction digits", "doubles written with a trailing dot and an exponent (1.e5)"),
+ "C16-m5": ("C16", "pilota-thrift-parser/src/parser/mod.rs blank", "one-entry memo of the last blank run keyed by text address, never reset", "a later text at the same address that is shorter than the remembered run or has a multi-byte character across it"),
+ "C16-m6": ("C16", "pilota-thrift-parser/src/parser/constant.rs IntConstant", "magnitude checked against 2^63 for negatives, then i64::try_from(..).expect()", "-9223372036854775808 (or -0x8000000000000000) anywhere an integer is accepted"),
+ "C17-m5": ("C17", "pilota-build/src/lib.rs Builder::touch", "touched files kept in a std HashMap", "ignore_unused (default) + touch over >= 2 files with enough items for id collisions: item order follows the process hash seed"),
+ "C17-m6": ("C17", "pilota-build/src/codegen/mod.rs + fmt.rs", "split files formatted in per-worker rustfmt batches via chunks_exact (remainder left unformatted)", "split mode, a module with >= 24 items, runs with thread counts that leave different remainders"),
+ "C19-m5": ("C19", "pilota/src/thrift/compact.rs", "field-id stack moved to a thread_local shared by all sync compact readers", "sync compact decodes failing between a struct begin and its end: two bytes per open struct stay, growth only through reallocations over many failures"),
+ "C19-m6": ("C19", "pilota/src/prost/error.rs + encoding.rs", "error descriptions interned by (kind, value) with Box::leak", "a different oversized field key (> u32::MAX) in every rejected input; repeating one input shows nothing"),
+ "C20-m5": ("C20", "pilota-build/src/plugin/mod.rs ImplDefaultPlugin", "structs whose defaults are all 0 / false / \"\" derive Default", "such a struct with a non-required defaulted field: Default gives None, decode of the empty struct Some(0)"),
+ "C20-m6": ("C20", "pilota-build/src/middle/context.rs double_lit_value", "doubles with an exponent computed as mantissa * 10^exp", "an exponent-notation double default whose scaling is inexact (6.02e23, 1.6e-19), compared bit for bit"),
  "C12-m4": ("C12", "pilota/src/thrift/mod.rs async skip_till_depth list arm", "list levels skipped with depth instead of depth - 1", "async skip of an unknown value nested deeper than 64 through lists: sync refuses, async accepts"),
 }
 
